@@ -472,11 +472,7 @@ def run_concurrent(case, st):
         st.outcome(f"concurrent {op}: {'ok' if not probs else 'bad'}")
 
     if "schedule" in case:
-        simenv.new_world()
-        s = vsched.Scheduler(case["schedule"], line_root=root, horizon=20000, after_calls=True)
-        result = harness(s)
-        s.run()
-        on_exec(s, result())
+        on_exec(*vsched.replay(harness, case, line_root=root, horizon=20000, after_calls=True))
         return
     stats = vsched.explore_schedules(harness, case["P"], on_exec=on_exec, line_root=root, horizon=20000, after_calls=True)
     st.states += stats["executions"]
